@@ -1,6 +1,10 @@
 package render
 
 import (
+	"encoding/json"
+	"io"
+	"net/http"
+	"os"
 	chart "helm.sh/helm/v4/pkg/chart/v2"
 	"bytes"
 	"fmt"
@@ -327,6 +331,9 @@ func ObserveRoute(a *Acc, m *Materialised, seed int64) {
 		return
 	}
 	o := routeRender(m, ch, false)
+	if os.Getenv("VERIF_DEBUG") != "" {
+		fmt.Fprintf(os.Stderr, "ROUTE %s err=%s %s manifest=%v\n", a.Line.ID, o.Err, o.ErrText, o.Manifest)
+	}
 	if m.Case.uses("LOOK") { // lookup legitimately sees the cluster on this route: the render only leaves its history
 		a.mu.Lock()
 		a.Runs++
@@ -358,7 +365,7 @@ func routeRender(m *Materialised, ch *chart.Chart, disableHooks bool) One {
 	sim := simcluster.New()
 	sim.Put(simcluster.Key{Group: "", Version: "v1", Resource: "secrets", Namespace: "ns", Name: "probe"},
 		map[string]interface{}{"metadata": map[string]interface{}{}, "data": map[string]interface{}{"k": "dg=="}})
-	f := &simcluster.Factory{RT: sim.Transport(1), Namespace: batchNS}
+	f := &simcluster.Factory{RT: discoRT{sim.Transport(1)}, Namespace: batchNS}
 	mem := driver.NewMemory()
 	mem.SetNamespace(batchNS)
 	cfg := &action.Configuration{
@@ -377,4 +384,36 @@ func routeRender(m *Materialised, ch *chart.Chart, disableHooks bool) One {
 	rel, err := in.Run(ch, map[string]interface{}{})
 	o.fill(m, rel, err)
 	return o
+}
+
+// discoRT answers the discovery request `lookup` makes (GET /api/v1, /apis/<group>/<version>) from the resource table
+// of the simulated API server and hands everything else to it.
+type discoRT struct{ inner http.RoundTripper }
+
+func (d discoRT) RoundTrip(req *http.Request) (*http.Response, error) {
+	parts := strings.Split(strings.Trim(req.URL.Path, "/"), "/")
+	group, version, ok := "", "", false
+	if len(parts) == 2 && parts[0] == "api" {
+		version, ok = parts[1], true
+	} else if len(parts) == 3 && parts[0] == "apis" {
+		group, version, ok = parts[1], parts[2], true
+	}
+	if !ok || req.Method != http.MethodGet {
+		return d.inner.RoundTrip(req)
+	}
+	gv := version
+	if group != "" {
+		gv = group + "/" + version
+	}
+	res := []map[string]interface{}{}
+	for _, r := range simcluster.Known {
+		if r.Group == group && r.Version == version {
+			res = append(res, map[string]interface{}{"name": r.Resource, "singularName": "", "namespaced": r.Namespaced, "kind": r.Kind,
+				"verbs": []string{"get", "list", "create", "update", "patch", "delete"}})
+		}
+	}
+	body, _ := json.Marshal(map[string]interface{}{"kind": "APIResourceList", "apiVersion": "v1", "groupVersion": gv, "resources": res})
+	return &http.Response{StatusCode: 200, Status: "200 OK", Proto: "HTTP/1.1", ProtoMajor: 1, ProtoMinor: 1,
+		Header: http.Header{"Content-Type": []string{"application/json"}}, Body: io.NopCloser(bytes.NewReader(body)),
+		ContentLength: int64(len(body)), Request: req}, nil
 }
